@@ -18,14 +18,15 @@ namespace AIToolbox {
     }
 
     bool isProbability(const SparseMatrix2D & in) {
-        // Eigen sparse does not implement minCoeff so we can't check for negatives.
-        // So we force the matrix to its abs, and if then the sum goes haywire then
-        // we found an error.
+        // Eigen sparse does not implement minCoeff, so we walk the stored values
+        // to check for negatives (entries which are not stored are zero).
+        for (int k = 0; k < in.outerSize(); ++k)
+            for (SparseMatrix2D::InnerIterator it(in, k); it; ++it)
+                if (it.value() < 0.0) return false;
+
         for (size_t row = 0; row < static_cast<size_t>(in.rows()); ++row)
-            if (
-                checkDifferentSmall(in.row(row).sum(), 1.0) ||
-                checkDifferentSmall(in.row(row).cwiseAbs().sum(), 1.0)
-            ) return false;
+            if (checkDifferentSmall(in.row(row).sum(), 1.0))
+                return false;
         return true;
     }
 
